@@ -26,6 +26,15 @@ pub struct Case {
 }
 
 impl Case {
+    /// The bytes at RIP (cases of program sweeps hold a whole program placed at `off`).
+    pub fn at_rip(&self) -> &[u8] {
+        let start = CODE + self.off as u64;
+        if self.sigma.rip >= start && ((self.sigma.rip - start) as usize) < self.bytes.len() {
+            &self.bytes[(self.sigma.rip - start) as usize..]
+        } else {
+            &[]
+        }
+    }
     pub fn to_json(&self) -> Value {
         json!({
             "bytes": hex(&self.bytes),
@@ -134,6 +143,8 @@ pub struct NatWorker {
     pub stub: Stub,
     pub base: Axecutor,
     pub fac: InstructionInfoFactory,
+    /// native post-state of the last case (for program sweeps that chain transitions)
+    pub last_native: Option<NativeOut>,
 }
 
 const EMU_REGIONS: [(Region, u64, u32); 5] = [
@@ -158,6 +169,7 @@ impl NatWorker {
             stub,
             base,
             fac: InstructionInfoFactory::new(),
+            last_native: None,
         }
     }
 
@@ -204,7 +216,7 @@ impl NatWorker {
     }
 
     pub fn run(&mut self, c: &Case) -> CaseResult {
-        let d = match decode_at(&c.bytes, c.sigma.rip) {
+        let d = match decode_at(c.at_rip(), c.sigma.rip) {
             Some(d) => d,
             None => crate::common::machinery_error(&format!("case does not decode: {}", hex(&c.bytes))),
         };
@@ -218,6 +230,7 @@ impl NatWorker {
         // native
         self.prepare_native(c);
         let n = self.stub.run(&c.sigma, an.names_xmm);
+        self.last_native = Some(n.clone());
         // emulator
         let mut ax = self.build_emu(c);
         let e = emu::step(&mut ax);
@@ -448,7 +461,7 @@ impl NatWorker {
                     }
                 } else {
                     // role, not geometry: inside or outside the bytes of the memory operand
-                    let ext = eval_ea(&c.bytes, c.sigma.rip, &c.sigma.gpr, c.sigma.fs, c.sigma.gs)
+                    let ext = eval_ea(c.at_rip(), c.sigma.rip, &c.sigma.gpr, c.sigma.fs, c.sigma.gs)
                         .map(|ea| (ea, ea.wrapping_add(an.mem_size.max(1) as u64)));
                     let inside = |k: usize| match ext {
                         Some((lo, hi)) => {
@@ -678,7 +691,7 @@ fn operand_value(i: &Instruction, k: u32, c: &Case) -> Option<u128> {
     match i.op_kind(k) {
         OpKind::Register => Some(get_gpr(&c.sigma.gpr, i.op_register(k)) as u128),
         OpKind::Memory => {
-            let ea = eval_ea(&c.bytes, c.sigma.rip, &c.sigma.gpr, c.sigma.fs, c.sigma.gs)?;
+            let ea = eval_ea(c.at_rip(), c.sigma.rip, &c.sigma.gpr, c.sigma.fs, c.sigma.gs)?;
             let n = i.memory_size().size();
             // value = poke covering ea, else pristine
             let mut v: u128 = 0;
